@@ -1,7 +1,7 @@
 """pyvc.ops -- Python/numpy operator semantics over symbolic values."""
 from __future__ import annotations
 import z3
-from .core import (Val, Num, Bool, Str, NoneV, NONE, Opt, Tup, Vec, Mat, Obj, Opaque, Buf, Ctx,
+from .core import (Val, Num, Bool, Str, NoneV, NONE, Opt, Tup, Vec, Mat, Obj, Opaque, Buf, Ctx, IteVal,
                    Unsupported, PyRaise, zint, zreal_of_float, conc, is_concrete_int)
 
 # ---------------------------------------------------------------------------------------------
@@ -82,6 +82,8 @@ def ite_val(c, a, b):
         if la is not None and la == lb:
             fa, fb = snapshot(a), snapshot(b)
             return Vec(la, lambda k: ite_val(c, fa(k), fb(k)), kind=a.kind, elem=a.elem)
+    if isinstance(a, (Mat, NoneV, Obj, Opaque, IteVal)) or isinstance(b, (Mat, NoneV, Obj, Opaque, IteVal)) or type(a).__name__ == "Sparse" or type(b).__name__ == "Sparse":
+        return IteVal(c, a, b)
     raise Unsupported(f"ite over {type(a).__name__}/{type(b).__name__}")
 
 
